@@ -159,87 +159,97 @@ Proof.
 Qed.
 
 Definition stmt_sim (b : binds) (r1 r2 : outcome (list obj * scope)) : Prop :=
-  forall os sc1', r1 = ROk (os, sc1') -> exists sc2', r2 = ROk (os, sc2') /\ sim b sc1' sc2' /\ scope_ok sc1' = true.
+  match r1 with
+  | ROk (os, sc1') => exists sc2', r2 = ROk (os, sc2') /\ sim b sc1' sc2' /\ scope_ok sc1' = true
+  | _ => True
+  end.
+Definition loop_sim (r1 r2 : outcome (list obj)) : Prop :=
+  match r1 with ROk inner => r2 = ROk inner | _ => True end.
+
+(* the body loop of a block, for any way of evaluating one statement that satisfies the simulation *)
+Lemma body_loop_sim b (ev : scope -> node -> outcome (list obj * scope)) :
+  forall l, Forall (fun n => forall sa sb, sim b sa sb -> scope_ok sa = true -> stmt_sim b (ev sa n) (ev sb (subst_node b n))) l ->
+  forall sa sb, sim b sa sb -> scope_ok sa = true ->
+    loop_sim
+      ((fix go (sc1 : scope) (l : list node) : outcome (list obj) :=
+         match l with
+         | [] => ROk []
+         | c :: r => rbind (ev sc1 c) (fun '(os, sc2) => rbind (go sc2 r) (fun rest => ROk (os ++ rest)))
+         end) sa l)
+      ((fix go (sc1 : scope) (l : list node) : outcome (list obj) :=
+         match l with
+         | [] => ROk []
+         | c :: r => rbind (ev sc1 c) (fun '(os, sc2) => rbind (go sc2 r) (fun rest => ROk (os ++ rest)))
+         end) sb (map (subst_node b) l)).
+Proof.
+  induction l as [|c r IHr]; intros HIH sa sb Hs Ho; [reflexivity|].
+  inversion HIH as [|? ? IHc IHrest]; subst. specialize (IHc sa sb Hs Ho). cbn [map].
+  destruct (ev sa c) as [[os1 sa']|cl ms|ty|]; cbn [rbind loop_sim]; try exact I.
+  cbn [stmt_sim] in IHc. destruct IHc as (sb' & Hc2 & Hs' & Ho'). rewrite Hc2. cbn [rbind].
+  specialize (IHr IHrest sa' sb' Hs' Ho').
+  match goal with |- loop_sim (rbind ?a _) (rbind ?a' _) => destruct a as [rest|cl ms|ty|]; cbn [rbind loop_sim] in *; try exact I end.
+  rewrite IHr. reflexivity.
+Qed.
 
 Theorem subst_node_sim b :
   forall n, inl_ok b n -> forall callf parent sc1 sc2, sim b sc1 sc2 -> scope_ok sc1 = true ->
     stmt_sim b (eval_node_g callf parent sc1 n) (eval_node_g callf parent sc2 (subst_node b n)).
 Proof.
   induction n as [nm v i|nm v|t|s body IH|sel body IH|mn mp mb IH|cn ca] using node_ind';
-    intros Hin callf parent sc1 sc2 Hsim Hok os sc1' H; try contradiction.
+    intros Hin callf parent sc1 sc2 Hsim Hok; try contradiction.
   - (* declaration *)
-    cbn [inl_ok] in Hin. cbn [eval_node_g subst_node] in *.
-    rewrite (preprocess_noexpr nm v Hin) in H. rewrite (preprocess_noexpr nm _ (subst_ok b v Hin)).
-    apply rbind_ok in H as (val & Hv & H). injection H as <- <-.
-    rewrite (subst_value b _ sc1 sc2 v val Hsim Hok Hin Hv). cbn [rbind]. eauto.
+    cbn [inl_ok] in Hin. cbn [eval_node_g subst_node].
+    rewrite (preprocess_noexpr nm v Hin), (preprocess_noexpr nm _ (subst_ok b v Hin)).
+    destruct (eval_value Eval.value_fuel sc1 v) as [val|cl ms|ty|] eqn:Hv; cbn [rbind stmt_sim]; try exact I.
+    rewrite (subst_value b Eval.value_fuel sc1 sc2 v val Hsim Hok Hin Hv). cbn [rbind]. eauto.
   - (* definition *)
-    cbn [inl_ok] in Hin. destruct Hin as [Hv Hx]. cbn [eval_node_g subst_node] in *. injection H as <- <-.
+    cbn [inl_ok] in Hin. destruct Hin as [Hv Hx]. cbn [eval_node_g subst_node stmt_sim].
     eexists. split; [reflexivity|]. split; [apply sim_add; assumption|apply add_variable_ok; assumption].
   - (* statement *)
-    cbn [eval_node_g subst_node] in *. injection H as <- <-. eauto.
+    cbn [eval_node_g subst_node stmt_sim]. eauto.
   - (* keyframe frame *)
-    cbn [inl_ok] in Hin. apply inl_ok_all in Hin. cbn [eval_node_g subst_node] in *. rewrite subst_node_go.
-    apply rbind_ok in H as (inner & Hgo & H).
-    assert (forall l, Forall (fun n => inl_ok b n -> forall callf parent sc1 sc2, sim b sc1 sc2 -> scope_ok sc1 = true ->
-                         stmt_sim b (eval_node_g callf parent sc1 n) (eval_node_g callf parent sc2 (subst_node b n))) l ->
-              Forall (inl_ok b) l -> forall sa sb inner0, sim b sa sb -> scope_ok sa = true ->
-      (fix go (sc1 : scope) (l : list node) : outcome (list obj) :=
-         match l with
-         | [] => ROk []
-         | c :: r => rbind (eval_node_g callf parent sc1 c) (fun '(os, sc2) => rbind (go sc2 r) (fun rest => ROk (os ++ rest)))
-         end) sa l = ROk inner0 ->
-      (fix go (sc1 : scope) (l : list node) : outcome (list obj) :=
-         match l with
-         | [] => ROk []
-         | c :: r => rbind (eval_node_g callf parent sc1 c) (fun '(os, sc2) => rbind (go sc2 r) (fun rest => ROk (os ++ rest)))
-         end) sb (map (subst_node b) l) = ROk inner0) as Hloop.
-    { induction l as [|c r IHr]; intros HIH Hall sa sb inner0 Hs Ho Hg; [exact Hg|].
-      inversion HIH as [|? ? IHc IHrest]; subst. inversion Hall as [|? ? Hc Hrest]; subst.
-      apply rbind_ok in Hg as ([os1 sa'] & Hc1 & Hg). apply rbind_ok in Hg as (rest & Hr1 & Hg). injection Hg as <-.
-      destruct (IHc Hc callf parent sa sb Hs Ho os1 sa' Hc1) as (sb' & Hc2 & Hs' & Ho').
-      cbn [map]. rewrite Hc2. cbn [rbind]. rewrite (IHr IHrest Hrest sa' sb' rest Hs' Ho' Hr1). reflexivity. }
-    rewrite (Hloop body IH Hin (push sc1) (push sc2) inner (sim_push b sc1 sc2 Hsim) (push_ok sc1 Hok) Hgo). cbn [rbind].
-    injection H as <- <-. eauto.
+    cbn [inl_ok] in Hin. apply inl_ok_all in Hin. cbn [eval_node_g subst_node]. rewrite subst_node_go.
+    pose proof (body_loop_sim b (eval_node_g callf parent) body) as Hloop.
+    assert (Forall (fun n => forall sa sb, sim b sa sb -> scope_ok sa = true ->
+                      stmt_sim b (eval_node_g callf parent sa n) (eval_node_g callf parent sb (subst_node b n))) body) as HF.
+    { clear Hloop. induction IH as [|c r IHc IHr IHF]; constructor.
+      - inversion Hin; subst. intros sa sb Hs Ho. apply IHc; assumption.
+      - inversion Hin; subst. apply IHF. assumption. }
+    specialize (Hloop HF (push sc1) (push sc2) (sim_push b sc1 sc2 Hsim) (push_ok sc1 Hok)).
+    match goal with |- stmt_sim b (rbind ?a _) (rbind ?a' _) => destruct a as [inner|cl ms|ty|]; cbn [rbind stmt_sim loop_sim] in *; try exact I end.
+    rewrite Hloop. cbn [rbind]. eauto.
   - (* rule *)
-    cbn [inl_ok] in Hin. apply inl_ok_all in Hin. cbn [eval_node_g subst_node] in *. rewrite subst_node_go.
-    apply rbind_ok in H as (inner & Hgo & H).
-    set (cp := if sets_current sel then Some (ident_parse parent sel) else parent) in *.
-    assert (forall l, Forall (fun n => inl_ok b n -> forall callf parent sc1 sc2, sim b sc1 sc2 -> scope_ok sc1 = true ->
-                         stmt_sim b (eval_node_g callf parent sc1 n) (eval_node_g callf parent sc2 (subst_node b n))) l ->
-              Forall (inl_ok b) l -> forall sa sb inner0, sim b sa sb -> scope_ok sa = true ->
-      (fix go (sc1 : scope) (l : list node) : outcome (list obj) :=
-         match l with
-         | [] => ROk []
-         | c :: r => rbind (eval_node_g callf cp sc1 c) (fun '(os, sc2) => rbind (go sc2 r) (fun rest => ROk (os ++ rest)))
-         end) sa l = ROk inner0 ->
-      (fix go (sc1 : scope) (l : list node) : outcome (list obj) :=
-         match l with
-         | [] => ROk []
-         | c :: r => rbind (eval_node_g callf cp sc1 c) (fun '(os, sc2) => rbind (go sc2 r) (fun rest => ROk (os ++ rest)))
-         end) sb (map (subst_node b) l) = ROk inner0) as Hloop.
-    { induction l as [|c r IHr]; intros HIH Hall sa sb inner0 Hs Ho Hg; [exact Hg|].
-      inversion HIH as [|? ? IHc IHrest]; subst. inversion Hall as [|? ? Hc Hrest]; subst.
-      apply rbind_ok in Hg as ([os1 sa'] & Hc1 & Hg). apply rbind_ok in Hg as (rest & Hr1 & Hg). injection Hg as <-.
-      destruct (IHc Hc callf cp sa sb Hs Ho os1 sa' Hc1) as (sb' & Hc2 & Hs' & Ho').
-      cbn [map]. rewrite Hc2. cbn [rbind]. rewrite (IHr IHrest Hrest sa' sb' rest Hs' Ho' Hr1). reflexivity. }
-    rewrite (Hloop body IH Hin (push sc1) (push sc2) inner (sim_push b sc1 sc2 Hsim) (push_ok sc1 Hok) Hgo). cbn [rbind].
-    injection H as <- <-. eauto.
+    cbn [inl_ok] in Hin. apply inl_ok_all in Hin. cbn [eval_node_g subst_node]. rewrite subst_node_go.
+    set (cp := if sets_current sel then Some (ident_parse parent sel) else parent).
+    pose proof (body_loop_sim b (eval_node_g callf cp) body) as Hloop.
+    assert (Forall (fun n => forall sa sb, sim b sa sb -> scope_ok sa = true ->
+                      stmt_sim b (eval_node_g callf cp sa n) (eval_node_g callf cp sb (subst_node b n))) body) as HF.
+    { clear Hloop. induction IH as [|c r IHc IHr IHF]; constructor.
+      - inversion Hin; subst. intros sa sb Hs Ho. apply IHc; assumption.
+      - inversion Hin; subst. apply IHF. assumption. }
+    specialize (Hloop HF (push sc1) (push sc2) (sim_push b sc1 sc2 Hsim) (push_ok sc1 Hok)).
+    match goal with |- stmt_sim b (rbind ?a _) (rbind ?a' _) => destruct a as [inner|cl ms|ty|]; cbn [rbind stmt_sim loop_sim] in *; try exact I end.
+    rewrite Hloop. cbn [rbind]. eauto.
   - (* nested definition *)
-    cbn [eval_node_g subst_node] in *. injection H as <- <-. eauto.
+    cbn [eval_node_g subst_node stmt_sim]. eauto.
 Qed.
 
-Theorem subst_body_sim b callf parent : forall body sc1 sc2 os sc1',
+Definition body_sim (r1 r2 : outcome (list obj * scope)) : Prop :=
+  match r1 with ROk (os, _) => exists sc2', r2 = ROk (os, sc2') | _ => True end.
+
+Theorem subst_body_sim b callf parent : forall body sc1 sc2,
   Forall (inl_ok b) body -> sim b sc1 sc2 -> scope_ok sc1 = true ->
-  eval_body callf parent sc1 body = ROk (os, sc1') ->
-  exists sc2', eval_body callf parent sc2 (map (subst_node b) body) = ROk (os, sc2').
+  body_sim (eval_body callf parent sc1 body) (eval_body callf parent sc2 (map (subst_node b) body)).
 Proof.
-  induction body as [|c r IH]; intros sc1 sc2 os sc1' Hall Hsim Hok H.
-  - cbn [eval_body map] in *. injection H as <- <-. eauto.
-  - inversion Hall as [|? ? Hc Hr]; subst. cbn [eval_body map] in *.
-    apply rbind_ok in H as ([os1 sa] & Hc1 & H). apply rbind_ok in H as ([rest sb] & Hr1 & H). injection H as <- <-.
-    destruct (subst_node_sim b c Hc callf parent sc1 sc2 Hsim Hok os1 sa Hc1) as (sa2 & Hc2 & Hs' & Ho').
-    destruct (IH sa sa2 rest sb Hr Hs' Ho' Hr1) as (sb2 & Hr2).
-    rewrite Hc2. cbn [rbind]. rewrite Hr2. cbn [rbind]. eauto.
+  induction body as [|c r IH]; intros sc1 sc2 Hall Hsim Hok.
+  - cbn [eval_body map body_sim]. eauto.
+  - inversion Hall as [|? ? Hc Hr]; subst. cbn [eval_body map].
+    pose proof (subst_node_sim b c Hc callf parent sc1 sc2 Hsim Hok) as Hc1.
+    destruct (eval_node_g callf parent sc1 c) as [[os1 sa]|cl ms|ty|]; cbn [rbind body_sim]; try exact I.
+    cbn [stmt_sim] in Hc1. destruct Hc1 as (sa2 & Hc2 & Hs' & Ho'). rewrite Hc2. cbn [rbind].
+    specialize (IH sa sa2 Hr Hs' Ho').
+    destruct (eval_body callf parent sa r) as [[rest sb]|cl ms|ty|]; cbn [rbind body_sim] in *; try exact I.
+    destruct IH as (sb2 & Hr2). rewrite Hr2. cbn [rbind]. eauto.
 Qed.
 
 (* ---- from the call to the substitution ---- *)
@@ -254,7 +264,7 @@ Definition arguments_strs (args : list (list str)) : list str := flat_map (fun a
 Lemma arguments_value_lits args : arguments_value args = map VT (arguments_strs args).
 Proof.
   unfold arguments_value, arguments_strs. induction args as [|a r IH]; [reflexivity|]. cbn [flat_map].
-  rewrite map_app, IH. cbn [map]. reflexivity.
+  rewrite IH, !map_app. reflexivity.
 Qed.
 
 (* what the scope looks like after bind_params: the zipped bindings, later ones first *)
@@ -283,7 +293,7 @@ Definition closed_under (b : binds) (sc : scope) : Prop :=
 
 Theorem call_is_inlining defs fuel pre d post name args parent sc os sc' zb :
   defs = pre ++ d :: post ->
-  Forall (fun m => str_eqb (m_name m) name = false) pre ->
+  (forall x, In x pre -> str_eqb (m_name x) name = false) ->
   str_eqb (m_name d) name = true -> m_body d <> [] ->
   args <> [] ->
   zip_binds (m_params d) args = Some zb ->
@@ -299,7 +309,10 @@ Proof.
   assert (arguments_of (m_params d) args = map VT (arguments_strs args)) as Ha.
   { unfold arguments_of. destruct args; [contradiction|]. apply arguments_value_lits. }
   rewrite Ha in H.
-  eapply subst_body_sim; [exact Hbody| |apply add_variable_ok; [apply val_ok_lits|apply Hk, Hok]|exact H].
+  assert (sim b (add_variable $"@arguments" (map VT (arguments_strs args)) sc1) sc) as Hsim.
+  2:{ pose proof (subst_body_sim b (call_mixin defs fuel) parent (m_body d) _ sc Hbody Hsim
+                    (add_variable_ok _ _ _ (val_ok_lits _) (Hk Hok))) as Hs.
+      rewrite H in Hs. exact Hs. }
   intros x. rewrite variables_add. subst b. cbn [assoc].
   destruct (str_eqb x $"@arguments"); [reflexivity|]. rewrite Hl.
   destruct (assoc x (rev zb)) as [a|]; [reflexivity|].
